@@ -16,7 +16,7 @@ RULE = ("Generated: three state types, n 1..3 (thorough ..4), parameters with sc
         "of sum q log(q/p) of reference Born distributions (dense U), >= 0, 0 against own state in every basis, dict form == "
         "rotate-once form; NLL = -mean log Born probability in each row's own basis; every path returns a plain float. "
         "Non-trivial = non-real target and (complex/density) a basis containing Y, (density) target rank > 1.")
-RULE_EXT = ('Extended as built: deprecated aliases, repeatability and target-unchanged checks, sparse targets with exact zeros (TINY=1e-15 convention), bases given as ndarray, datasets of up to 700 rows, polarised states, an in-place parameter history A -> B -> A, ignored extra keyword arguments.')
+RULE_EXT = ('Extended as built: deprecated aliases, repeatability and target-unchanged checks, sparse targets with exact zeros (TINY=1e-15 convention), bases given as ndarray, datasets of up to 700 rows, polarised states, an in-place parameter history A -> B -> A, ignored extra keyword arguments. Rounds 5-6: user-added / overridden unitaries (letters used in bases); conditioning-based exclusion of rotated probabilities that are tiny through cancellation (error bound on KL > 1e-10, counted); the dict of per-basis targets passed by the caller is unchanged and a second call gives the same value.')
 RULE = RULE + " " + RULE_EXT
 ASSUMPTIONS = ["rotated Born probabilities that are tiny because their terms cancel (|sum|/sum|terms| small) are ill-conditioned in any float64 implementation: cases where the resulting error bound on KL exceeds 1e-10 (or a sampled row has |sum|/sum|terms| < 1e-6) are excluded and counted; KL against the model's own state is 0 to within 2e-8 (softplus threshold e^-20 per hidden unit)",
                "cases where a reference Born probability that is paired with positive target mass is < 1e-15 are excluded and counted "
@@ -189,7 +189,12 @@ def check(c):
         if bases is not None and c["dict_form"]:
             rot = (lambda M, b: R.kron_U(ud, b) @ M @ R.kron_U(ud, b).conj().t()) if dens else (lambda v, b: R.kron_U(ud, b) @ v)
             tdict = {b: R.c_to_lib(rot(target, b)) for b in bases}
+            keep_tdict = {b: v.clone() for b, v in tdict.items()}
             kl = TS.KL(state, tdict, space, bases=None if len(bases) % 2 else list(reversed(bases)))
+            require(list(tdict.keys()) == list(keep_tdict.keys()) and all(torch.equal(tdict[b], keep_tdict[b]) for b in tdict), "target-mutated:dict",
+                    "KL modified the caller's dictionary of per-basis targets")
+            kl_rep = TS.KL(state, tdict, space, bases=None if len(bases) % 2 else list(reversed(bases)))
+            require(abs(kl_rep - kl) <= 1e-12 * (1 + abs(kl)), "KL:not-repeatable:dict", f"KL with the same per-basis targets changed from {kl} to {kl_rep} on a second call")
             kl_once = TS.KL(state, lib_t, space, bases=bases)
             require(is_plain_float(kl_once) and abs(kl - kl_once) <= 1e-8 * (1 + abs(want)), "KL:dict-vs-rotate-once",
                     f"KL with per-basis pre-rotated targets ({kl}) differs from KL with one target to be rotated ({kl_once})")
